@@ -367,7 +367,7 @@ pub fn profile(name: &str) -> Profile {
         "C09" => Profile { name: "C09", validators: true, w_if_present: 22, w_insert: 30, w_remove: 10, capacity: "ample", fixed_cost_per_key: false, coster: true, ..base },
         "C11" => Profile { name: "C11", w_clear: 9, ttl_share: 6, ..base },
         "C16" => Profile { name: "C16", capacity: "ample", fixed_cost_per_key: false, coster: true, big_costs: true, w_if_present: 10, w_advance: 12, ttl_share: 3, ..base },
-        "C17" => Profile { name: "C17", capacity: "evict", fixed_cost_per_key: false, w_lookups: 14, w_clear: 3, universe: (4, 14), ..base },
+        "C17" => Profile { name: "C17", capacity: "evict", fixed_cost_per_key: false, w_lookups: 14, w_clear: 3, universe: (4, 14), big_costs: true, ..base },
         "C01" => Profile { name: "C01", capacity: "evict", fixed_cost_per_key: false, big_costs: true, w_maxcost: 6, w_if_present: 8, coster: true, universe: (4, 16), ..base },
         "C07" => Profile { name: "C07", capacity: "evict", fixed_cost_per_key: false, w_lookups: 16, universe: (6, 16), w_advance: 10, ttl_share: 2, ..base },
         "C18" => Profile { name: "C18", collide: true, capacity: "ample", universe: (4, 12), w_getmut: 8, w_if_present: 10, ..base },
